@@ -53,7 +53,7 @@ def replay(res, records, what):
     if not okb:
         res.violation("model-build", "extracted model does not build: " + txt[-1200:])
         return 0, []
-    rc, mout = vlib.model_replay("os", "\n".join(records) + "\n")
+    rc, mout = vlib.model_replay("os", "\n".join(records) + "\n", timeout=2400)
     mism = [l for l in mout.splitlines() if l.startswith("MISMATCH")]
     done = [l for l in mout.splitlines() if l.startswith("DONE")]
     if rc != 0 or not done:
